@@ -14,6 +14,7 @@ import (
 	"fmt"
 	"image/color"
 	"image/png"
+	"math"
 	"os"
 	"os/exec"
 	"strings"
@@ -33,6 +34,9 @@ type jop struct {
 	Pat   []int32    `json:"pat,omitempty"`   // data = pattern(a, s)
 	Span  int32      `json:"span,omitempty"`
 	Roi   [][4]int32 `json:"roi,omitempty"` // spans of the ROI used by this request
+	Att   int        `json:"att,omitempty"` // ?attenuation=n (reads through an ROI)
+	Mut   bool       `json:"mutate,omitempty"`
+	Iso   bool       `json:"iso,omitempty"` // the isotropic endpoint (instances have isotropic voxels)
 	Req   [][3]int32 `json:"req,omitempty"`
 }
 
@@ -45,10 +49,35 @@ type jcase struct {
 	Stride int32   `json:"stride,omitempty"`
 	Block  []int32 `json:"block,omitempty"`
 	Bpv    int32   `json:"bpv,omitempty"`
+	Att    int     `json:"att,omitempty"`
 	G      *jop    `json:"g,omitempty"`
 }
 
 var bpvOf = map[string]int32{"uint8blk": 1, "uint16blk": 2, "uint32blk": 4, "uint64blk": 8, "float32blk": 4, "rgba8blk": 4}
+
+// bgPattern: one voxel with every value equal to Background (little-endian integers, IEEE float)
+func bgPattern(typ string, bg int) []byte {
+	switch typ {
+	case "uint8blk":
+		return []byte{byte(bg)}
+	case "uint16blk":
+		return []byte{byte(bg), 0}
+	case "uint32blk":
+		return []byte{byte(bg), 0, 0, 0}
+	case "uint64blk":
+		return []byte{byte(bg), 0, 0, 0, 0, 0, 0, 0}
+	case "float32blk":
+		b := make([]byte, 4)
+		binary.LittleEndian.PutUint32(b, math.Float32bits(float32(bg)))
+		return b
+	case "rgba8blk":
+		return []byte{byte(bg), byte(bg), byte(bg), byte(bg)}
+	}
+	return nil
+}
+func ccfg(bs []int32, bpv int32, bg int, pat []byte) string {
+	return fmt.Sprintf("(C %s %d %d %s%%N true)", cpt(bs), bpv, bg, lib.CoqBytes(pat))
+}
 
 func z(v int64) string { return lib.CoqZ(v) }
 func cpt(p []int32) string {
@@ -235,11 +264,21 @@ func histTerm(c jcase) (string, []string) {
 		roiNames[key] = rn
 		return rn
 	}
-	q := func(rn string) string {
-		if rn == "" {
+	q := func(rn string, att int, mut bool) string {
+		var qs []string
+		if rn != "" {
+			qs = append(qs, "roi="+rn)
+			if att != 0 {
+				qs = append(qs, fmt.Sprintf("attenuation=%d", att))
+			}
+		}
+		if mut {
+			qs = append(qs, "mutate=true")
+		}
+		if len(qs) == 0 {
 			return ""
 		}
-		return "?roi=" + rn
+		return "?" + strings.Join(qs, "&")
 	}
 	resBytes := func(r dv.Resp, b []byte, ok bool) string {
 		switch {
@@ -261,17 +300,28 @@ func histTerm(c jcase) (string, []string) {
 		case "postraw":
 			n := int(o.Size[0]) * int(o.Size[1]) * int(o.Size[2]) * int(bpv)
 			data := pattern(o.Pat[0], o.Pat[1], n)
-			r := dv.Post(fmt.Sprintf("%s/raw/0_1_2/%d_%d_%d/%d_%d_%d%s", base, o.Size[0], o.Size[1], o.Size[2], o.Off[0], o.Off[1], o.Off[2], q(roiOf(o.Roi))), data)
+			r := dv.Post(fmt.Sprintf("%s/raw/0_1_2/%d_%d_%d/%d_%d_%d%s", base, o.Size[0], o.Size[1], o.Size[2], o.Off[0], o.Off[1], o.Off[2], q(roiOf(o.Roi), 0, o.Mut)), data)
 			terms = append(terms, fmt.Sprintf("OPostRaw %s %s %s %s %s", cpt(o.Off), cpt(o.Size), cpat(o.Pat[0], o.Pat[1], n), cspans(o.Roi), lib.CoqBool(r.Status == 200)))
 			if o.Roi != nil {
 				count("write:roi")
 			}
+			if o.Mut {
+				count("write:mutate")
+			}
 		case "getraw":
 			var url string
+			ep := "raw"
+			if o.Iso {
+				ep = "isotropic"
+				count("read:isotropic")
+			}
+			if o.Att != 0 {
+				count("read:attenuation")
+			}
 			if o.Shape == "0_1_2" {
-				url = fmt.Sprintf("%s/raw/0_1_2/%d_%d_%d/%d_%d_%d%s", base, o.Size[0], o.Size[1], o.Size[2], o.Off[0], o.Off[1], o.Off[2], q(roiOf(o.Roi)))
+				url = fmt.Sprintf("%s/%s/0_1_2/%d_%d_%d/%d_%d_%d%s", base, ep, o.Size[0], o.Size[1], o.Size[2], o.Off[0], o.Off[1], o.Off[2], q(roiOf(o.Roi), o.Att, false))
 			} else {
-				url = fmt.Sprintf("%s/raw/%s/%d_%d/%d_%d_%d%s", base, o.Shape, o.Size[0], o.Size[1], o.Off[0], o.Off[1], o.Off[2], q(roiOf(o.Roi)))
+				url = fmt.Sprintf("%s/%s/%s/%d_%d/%d_%d_%d%s", base, ep, o.Shape, o.Size[0], o.Size[1], o.Off[0], o.Off[1], o.Off[2], q(roiOf(o.Roi), o.Att, false))
 			}
 			r := dv.Get(url)
 			body, ok := r.Body, r.Status == 200
@@ -283,11 +333,13 @@ func histTerm(c jcase) (string, []string) {
 				body = b
 			}
 			count("read:" + o.Shape)
-			terms = append(terms, fmt.Sprintf("OGetRaw %s %s %s", cgeom(o), cspans(o.Roi), resBytes(r, body, ok)))
+			// ServeHTTP parses ?attenuation into a struct it never hands to GetVoxels: over HTTP the
+			// parameter has no effect (blocks outside the ROI read as background), so the term says 0
+			terms = append(terms, fmt.Sprintf("OGetRaw %s %s 0 %s", cgeom(o), cspans(o.Roi), resBytes(r, body, ok)))
 		case "postblocks":
 			n := int(bs[0]) * int(bs[1]) * int(bs[2]) * int(bpv) * int(o.Span)
 			data := pattern(o.Pat[0], o.Pat[1], n)
-			r := dv.Post(fmt.Sprintf("%s/blocks/%d_%d_%d/%d", base, o.Off[0], o.Off[1], o.Off[2], o.Span), data)
+			r := dv.Post(fmt.Sprintf("%s/blocks/%d_%d_%d/%d%s", base, o.Off[0], o.Off[1], o.Off[2], o.Span, q("", 0, o.Mut)), data)
 			terms = append(terms, fmt.Sprintf("OPostBlocks %s %d %s %s", cpt(o.Off), o.Span, cpat(o.Pat[0], o.Pat[1], n), lib.CoqBool(r.Status == 200)))
 			// read the blocks back at once: a lost POST must not be followed by reads that would
 			// index into the short blocks it stored (that panics inside a server goroutine)
@@ -361,7 +413,7 @@ func histTerm(c jcase) (string, []string) {
 			terms = append(terms, "OExtents "+t)
 		}
 	}
-	term := fmt.Sprintf("(KHist (C %s %d %d) [\n    %s])", cpt(bs), bpv, c.BG, strings.Join(terms, ";\n    "))
+	term := fmt.Sprintf("(KHist %s [\n    %s])", ccfg(bs, bpv, c.BG, bgPattern(c.Type, c.BG)), strings.Join(terms, ";\n    "))
 	count("type:" + c.Type)
 	count(fmt.Sprintf("background:%v", c.BG != 0))
 	return term, counts
@@ -392,7 +444,13 @@ func runHist(c jcase) {
 	}
 	if err != nil || term == "" {
 		run.Count("history:server-crashed")
-		term = fmt.Sprintf("(KCrash (C %s %d %d))", cpt(c.BS), bpvOf[c.Type], c.BG)
+		cls := 8
+		for _, o := range c.Ops {
+			if o.Att != 0 {
+				cls = 8
+			}
+		}
+		term = fmt.Sprintf("(KCrash %s %d%%nat)", ccfg(c.BS, bpvOf[c.Type], c.BG, bgPattern(c.Type, c.BG)), cls)
 	}
 	run.Add("history", term, c, key)
 }
@@ -467,7 +525,27 @@ func runXfer(c jcase) {
 		}
 		return lib.CoqRes(cls, cbytes(d))
 	}
-	term := fmt.Sprintf("(KXfer (C %s %d 0) %s %d %s %s %s %s %s)", cpt(c.BS), c.Bpv, cgeom(o), c.Stride, cpt(c.Block),
+	if c.Att != 0 {
+		d := append([]byte{}, data...)
+		b := append([]byte{}, blk...)
+		vox := imageblk.NewVoxels(geom, valuesFor(c.Bpv), d, c.Stride)
+		kv := &storage.TKeyValue{K: imageblk.NewTKey(&idx), V: b}
+		cls := "ok"
+		panicked, _ := lib.Recover(func() {
+			if err := vox.ReadBlock(kv, bs, uint8(c.Att)); err != nil {
+				cls = "err"
+			}
+		})
+		if panicked {
+			cls = "panic"
+		}
+		term := fmt.Sprintf("(KScaled %s %s %d %s %s %s %d %s)", ccfg(c.BS, c.Bpv, 0, make([]byte, c.Bpv)), cgeom(o), c.Stride, cpt(c.Block),
+			cpat(o.Pat[0], o.Pat[1], ndata), cpat(o.Pat[0]+100, o.Pat[1]+7, nblk), c.Att, lib.CoqRes(cls, cbytes(d)))
+		run.Count("scaled:" + o.Shape)
+		run.Add("scaled", term, c, fmt.Sprintf("scaled/%s/%v/%v/%v/%d/%d", o.Shape, o.Off, o.Size, c.Block, c.Bpv, c.Att))
+		return
+	}
+	term := fmt.Sprintf("(KXfer %s %s %d %s %s %s %s %s)", ccfg(c.BS, c.Bpv, 0, make([]byte, c.Bpv)), cgeom(o), c.Stride, cpt(c.Block),
 		cpat(o.Pat[0], o.Pat[1], ndata), cpat(o.Pat[0]+100, o.Pat[1]+7, nblk), do(false), do(true))
 	run.Count("xfer:" + o.Shape)
 	run.Add("xfer", term, c, fmt.Sprintf("xfer/%s/%v/%v/%v/%d", o.Shape, o.Off, o.Size, c.Block, c.Bpv))
@@ -477,7 +555,7 @@ func dispatch(c jcase) {
 	switch c.Kind {
 	case "history":
 		runHist(c)
-	case "xfer":
+	case "xfer", "scaled":
 		runXfer(c)
 	default:
 		fmt.Fprintln(os.Stderr, "unknown case kind", c.Kind)
@@ -494,7 +572,7 @@ func fdiv(a, b int32) int32 {
 	return q
 }
 
-func genHistory(rng *lib.Rand, typ string, bs []int32, bg int, withROI, withBlocks bool) jcase {
+func genHistory(rng *lib.Rand, typ string, bs []int32, bg int, withROI, withBlocks, withAtt bool) jcase {
 	c := jcase{Kind: "history", Type: typ, BS: bs, BG: bg}
 	pat := func() []int32 { return []int32{int32(rng.Intn(251)), int32(1 + rng.Intn(250))} }
 	// block origin of the play area, negative and positive
@@ -508,7 +586,7 @@ func genHistory(rng *lib.Rand, typ string, bs []int32, bg int, withROI, withBloc
 		ob := []int32{bo[0] + int32(rng.Intn(3)) - 1, bo[1] + int32(rng.Intn(3)) - 1, bo[2] + int32(rng.Intn(2))}
 		w := box{[]int32{ob[0] * bs[0], ob[1] * bs[1], ob[2] * bs[2]}, []int32{nb[0] * bs[0], nb[1] * bs[1], nb[2] * bs[2]}}
 		writes = append(writes, w)
-		add(jop{Op: "postraw", Off: w.off, Size: w.size, Pat: pat(), Roi: roi})
+		add(jop{Op: "postraw", Off: w.off, Size: w.size, Pat: pat(), Roi: roi, Mut: rng.Chance(0.3)})
 	}
 	reads := func(roi [][4]int32) {
 		w := writes[rng.Intn(len(writes))]
@@ -520,7 +598,7 @@ func genHistory(rng *lib.Rand, typ string, bs []int32, bg int, withROI, withBloc
 			if rng.Chance(0.7) {
 				s2 := []int32{int32(1 + rng.Intn(int(bs[0])*2+1)), int32(1 + rng.Intn(int(bs[1])+3))}
 				o2 := []int32{w.off[0] + int32(rng.Intn(int(w.size[0]))) - int32(rng.Intn(4)), w.off[1] + int32(rng.Intn(int(w.size[1]))) - int32(rng.Intn(3)), w.off[2] + int32(rng.Intn(int(w.size[2]))) - int32(rng.Intn(3))}
-				add(jop{Op: "getraw", Shape: sh, Off: o2, Size: s2, Roi: roi})
+				add(jop{Op: "getraw", Shape: sh, Off: o2, Size: s2, Roi: roi, Iso: rng.Chance(0.25)})
 			}
 		}
 	}
@@ -556,11 +634,18 @@ func genHistory(rng *lib.Rand, typ string, bs []int32, bg int, withROI, withBloc
 		reads(nil)
 		reads(roi)
 		add(jop{Op: "extents"})
+		if withAtt {
+			// reads through the ROI with attenuation, on a box that spans several block columns
+			w := writes[len(writes)-1]
+			add(jop{Op: "getraw", Shape: "0_1_2", Off: []int32{w.off[0] - 1, w.off[1], w.off[2]}, Size: []int32{w.size[0] + 2, w.size[1], int32(1 + rng.Intn(2))}, Roi: roi, Att: 1 + rng.Intn(3)})
+			add(jop{Op: "getraw", Shape: "0_1", Off: []int32{w.off[0] + 1, w.off[1] - 1, w.off[2]}, Size: []int32{w.size[0], w.size[1] + 1}, Roi: roi, Att: 1 + rng.Intn(7)})
+			add(jop{Op: "getraw", Shape: "1_2", Off: []int32{w.off[0] + 1, w.off[1], w.off[2] - 1}, Size: []int32{w.size[1], w.size[2] + 1}, Roi: roi, Att: 2})
+		}
 	}
 	if withBlocks {
 		start := []int32{bo[0] + int32(rng.Intn(3)) - 1, bo[1] + int32(rng.Intn(2)), bo[2] - 1}
 		span := int32(1 + rng.Intn(3))
-		add(jop{Op: "postblocks", Off: start, Span: span, Pat: pat()})
+		add(jop{Op: "postblocks", Off: start, Span: span, Pat: pat(), Mut: rng.Chance(0.3)})
 		writes = append(writes, box{[]int32{start[0] * bs[0], start[1] * bs[1], start[2] * bs[2]}, []int32{span * bs[0], bs[1], bs[2]}})
 		add(jop{Op: "extents"})
 		reads(nil)
@@ -643,6 +728,18 @@ func main() {
 	for i := 0; i < 40*mul; i++ {
 		dispatch(genXfer(rng))
 	}
+	// ReadBlock with an attenuation (readScaledBlock): one-byte voxels, plus a few wider ones (refused)
+	dispatch(jcase{Kind: "xfer", BS: []int32{4, 4, 4}, Bpv: 1, Block: []int32{1, 0, 0}, Stride: 8, Att: 1,
+		G: &jop{Shape: "0_1_2", Off: []int32{0, 0, 0}, Size: []int32{8, 2, 1}, Pat: []int32{0, 1}}})
+	for i := 0; i < 12*mul; i++ {
+		c := genXfer(rng)
+		if i%6 != 5 {
+			c.Bpv = 1
+			c.Stride = c.G.Size[0]
+		}
+		c.Att = 1 + rng.Intn(7)
+		dispatch(c)
+	}
 	// corpus: the three recorded defects, each as the shortest history that shows it
 	dispatch(jcase{Kind: "history", Type: "uint8blk", BS: []int32{4, 4, 4}, BG: 7, Ops: []jop{
 		{Op: "postraw", Off: []int32{-4, 0, 4}, Size: []int32{4, 4, 4}, Pat: []int32{0, 1}},
@@ -653,22 +750,34 @@ func main() {
 		{Op: "postblocks", Off: []int32{1, -1, 0}, Span: 2, Pat: []int32{0, 1}},
 		{Op: "extents"}}})
 
+	dispatch(jcase{Kind: "history", Type: "uint16blk", BS: []int32{2, 2, 2}, BG: 7, Ops: []jop{
+		{Op: "getraw", Shape: "0_1_2", Off: []int32{0, 0, 0}, Size: []int32{2, 1, 1}},
+		{Op: "getblocks", Off: []int32{0, 0, 0}, Span: 1}}})
+	dispatch(jcase{Kind: "history", Type: "uint8blk", BS: []int32{4, 4, 4}, Ops: []jop{
+		{Op: "postraw", Off: []int32{0, 0, 0}, Size: []int32{8, 4, 4}, Pat: []int32{99, 1}},
+		{Op: "getraw", Shape: "0_1_2", Off: []int32{0, 0, 0}, Size: []int32{8, 2, 1}, Roi: [][4]int32{{0, 0, 0, 0}}, Att: 1}}})
 	types := []string{"uint8blk", "uint16blk", "uint32blk", "uint64blk", "float32blk", "rgba8blk"}
 	nh := 0
 	for rep := 0; rep < mul; rep++ {
 		for ti, typ := range types {
 			bs := [][]int32{{4, 4, 4}, {4, 3, 2}, {8, 4, 2}, {2, 4, 3}, {3, 3, 3}, {4, 2, 4}}[(ti+rep+rng.Intn(2))%6]
 			bg := 0
-			if typ == "uint8blk" && rng.Chance(0.5) {
+			if (typ == "uint8blk" && rng.Chance(0.5)) || rng.Chance(0.25) {
 				bg = 1 + rng.Intn(255)
 			}
-			dispatch(genHistory(rng, typ, bs, bg, (ti+rep)%2 == 0, (ti+rep)%3 != 1))
+			dispatch(genHistory(rng, typ, bs, bg, (ti+rep)%2 == 0, (ti+rep)%3 != 1, false))
 			nh++
 		}
 	}
-	// a multi-byte instance with a non-zero Background: no property is claimed (the code has
-	// no single notion of background there), the model is still compared
-	dispatch(genHistory(rng, "uint16blk", []int32{4, 4, 2}, 5, false, false))
+	// every voxel type with a non-zero Background, and attenuated reads through an ROI, in
+	// histories of their own (their failures have their own classes)
+	for _, typ := range []string{"uint16blk", "float32blk", "rgba8blk"} {
+		dispatch(genHistory(rng, typ, []int32{4, 4, 2}, 1+rng.Intn(255), false, true, false))
+	}
+	for rep := 0; rep < mul; rep++ {
+		dispatch(genHistory(rng, "uint8blk", []int32{4, 3, 2}, rng.Pick(0, 9), true, false, true))
+		dispatch(genHistory(rng, "uint16blk", []int32{4, 4, 4}, 0, true, false, true))
+	}
 	run.Finish("c17case",
 		"one history per (voxel type x block size): block-aligned writes at negative and positive block coordinates (overlapping, ROI-restricted, block streams), reads of 3d boxes of any alignment and XY/XZ/YZ slices crossing block borders and leaving the written area, block streams and extents after each stage; single-block ReadBlock/WriteBlock for every shape, voxel width and padded strides; distinct by (kind, type, block size, background, geometry)",
 		tail)
